@@ -60,6 +60,14 @@ func Write(w io.Writer, seed int64, bls bool) {
 			h.Write(data[n/3 : n])
 			line("hash", fmt.Sprintf("%s/%d/split", name, n), []byte(h.SumHash()))
 		}
+		// the same bytes at misaligned addresses (word-wise absorption of unaligned input), on a fresh and on a reused object
+		h := hashers[name]()
+		for _, off := range []int{1, 3, 5, 7} {
+			for _, n := range []int{7, 104, 136, 137, 280, 1000} {
+				line("hash", fmt.Sprintf("%s/%d/misaligned%d", name, n, off), []byte(hashers[name]().ComputeHash(data[off:off+n])))
+				line("hash", fmt.Sprintf("%s/%d/misaligned%d/reused", name, n, off), []byte(h.ComputeHash(data[off:off+n])))
+			}
+		}
 	}
 	var o32 [32]byte
 	hash.ComputeSHA3_256(&o32, data[:300])
